@@ -145,11 +145,16 @@ def _get_reference_residue(residue, force_field):
             if mod_name != 'none':
                 mod = force_field.modifications[mod_name]
                 reference_block = _patch_modification(reference_block, mod)
+    if 'modification' in residue or 'mutation' in residue:
+        if reference_block is force_field.reference_graphs[resname]:
+            # The marks are for this residue only: do not write them in the
+            # graph all residues with this name share.
+            reference_block = reference_block.copy()
         for node_idx in reference_block:
-            reference_block.nodes[node_idx]['modification'] = modifications
-    if 'mutation' in residue:
-        for node_idx in reference_block:
-            reference_block.nodes[node_idx]['mutation'] = mutation
+            if 'modification' in residue:
+                reference_block.nodes[node_idx]['modification'] = modifications
+            if 'mutation' in residue:
+                reference_block.nodes[node_idx]['mutation'] = mutation
 
     return reference_block
 
